@@ -336,6 +336,46 @@ h_dround_bday(void)
 	WITNESS();
 }
 
+/* (4f) co-class rounding of a ymd date to a multiple of N months (N a
+ * divisor of 12, so /3mo are the quarters and /12mo the years): the first
+ * day of the nearest such month on the requested side, a date already
+ * there stays */
+#if !defined NMON
+# define NMON	3
+#endif
+void
+h_dround_cocl_mon(void)
+{
+	ND_DAY(r);
+	ND(u8, vdown);
+	struct dt_d_s x = mk_rep(R_YMD, r);
+	struct dt_d_s y;
+	struct dt_ddur_s dur;
+	int ym, of, eym;
+
+	ASSUME(vdown <= 1);
+	ASSUME(r.y > REF_MIN_YEAR && r.y < REF_MAX_YEAR);
+	dur = dt_make_ddur(DT_DURMO, NMON);
+	dur.cocl = 1;
+	dur.neg = vdown;
+	y = dround_ddur_cocl(x, dur, false);
+	ym = r.y * 12 + r.m - 1;
+	of = (r.m - 1) % NMON;
+	if (vdown) {
+		eym = ym - of;
+	} else {
+		eym = (of == 0 && r.d == 1) ? ym : ym - of + NMON;
+	}
+	CHECK(y.typ == DT_YMD && (int)y.ymd.d == 1, "finer field at its first value");
+	CHECK((int)y.ymd.y == eym / 12 && (int)y.ymd.m == eym % 12 + 1, "nearest multiple of N months on the requested side");
+	CHECK(((int)y.ymd.m - 1) % NMON == 0, "a multiple of N months");
+	{
+		struct dt_d_s z = dround_ddur_cocl(y, dur, false);
+		CHECK(z.u == y.u, "rounding twice equals rounding once");
+	}
+	WITNESS();
+}
+
 /* (5) idempotence through dt_round: rounding twice equals rounding once */
 void
 h_idem(void)
